@@ -11,5 +11,7 @@ func controlsC12() []Control {
 		{Name: "table created on a break is not paused", Expect: "R5", Mutate: replaceIn("(*tableEngine).CreateTable", "tableSetting.Blind.Level == -1", "tableSetting.Blind.Level == -2", 0)},
 		{Name: "pause predicate ignores breaks", Expect: "R5", Mutate: replaceIn("(Table).ShouldPause", "t.State.BlindState.IsBreaking() || ", "", 0)},
 		{Name: "published hand blinds report the next level", Expect: "R1", Mutate: replaceIn("(*tableEngine).startGame", "Level:  blind.Level,", "Level:  blind.Level + 1,", 0)},
+		{Name: "blinds count as set without a dealer amount", Expect: "R5", Mutate: replaceIn("(TableBlindState).IsSet", "bs.Dealer != UnsetValue && ", "", 0)},
+		{Name: "blinds count as set at level zero", Expect: "R5", Mutate: replaceIn("(TableBlindState).IsSet", "bs.Level != 0", "bs.Level != -1", 0)},
 	}
 }
